@@ -12,8 +12,8 @@ exactly it when `}` follows (true of every valid JSON value; proved below for qu
 "Unknown" body prints; for the registered body types it is the hypothesis on their own JSON) -/
 structure ValueText (pv : Str) : Prop where
   head : ∃ c r, pv = c :: r ∧ isWs c = false
-  scan : ∀ f t, scanJ (f + 1) .value (pv ++ '}' :: t) = some ('}' :: t)
-  fuel_free : True
+  /-- with enough fuel for its nesting (never more than twice its length) -/
+  scan : ∃ need, need ≤ 2 * pv.length ∧ ∀ f t, need ≤ f → scanJ (f + 1) .value (pv ++ '}' :: t) = some ('}' :: t)
 
 theorem scanValue_quote (f : Nat) (s t : Str) (h : ∀ c ∈ s, isSafe c = true) :
     scanJ (f + 1) .value (quote s ++ t) = some t := by
@@ -23,7 +23,7 @@ theorem scanValue_quote (f : Nat) (s t : Str) (h : ∀ c ∈ s, isSafe c = true)
   exact scanString_safe s t h
 
 theorem valueText_quote (s : Str) (h : ∀ c ∈ s, isSafe c = true) : ValueText (quote s) :=
-  ⟨⟨'"', s ++ ['"'], by simp [quote], by decide⟩, fun f t => scanValue_quote f s _ h, trivial⟩
+  ⟨⟨'"', s ++ ['"'], by simp [quote], by decide⟩, ⟨0, Nat.zero_le _, fun f t _ => scanValue_quote f s _ h⟩⟩
 
 theorem skipWs_id (s : Str) (h : ∀ c r, s = c :: r → isWs c = false) : skipWs s = s := by
   cases s with
@@ -152,10 +152,11 @@ theorem kVal_safe : ∀ c ∈ kVal, isSafe c = true := by decide
 
 /-- the validity scan accepts the envelope text -/
 theorem envText_members (g : Nat) (name : Str) (hn : ∀ c ∈ name, isSafe c = true) (op : Option Nat) (pv : Str)
-    (hv : ValueText pv) :
+    (hv : ValueText pv) (hg : 2 * pv.length ≤ g) :
     scanJ (g + 4) .members ('"' :: kSum ++ '"' :: ':' :: [' '] ++ quote name ++ ',' ::
       (printOp op ++ ('"' :: kVal ++ '"' :: ':' :: pv ++ ['}']))) = some [] := by
   have hq : ∃ c r, quote name = c :: r ∧ isWs c = false := ⟨'"', name ++ ['"'], by simp [quote], by decide⟩
+  obtain ⟨need, hneed, hscan⟩ := hv.scan
   cases op with
   | none =>
     simp only [printOp, List.cons_append, List.append_assoc, List.nil_append]
@@ -163,7 +164,7 @@ theorem envText_members (g : Nat) (name : Str) (hn : ∀ c ∈ name, isSafe c = 
       kSum_safe (by decide) (scanValue_quote (g + 2) name _ hn) hq ⟨'"', _, rfl, by decide⟩
     simp only [List.cons_append, List.append_assoc, List.nil_append] at h1
     rw [h1]
-    have := members_last (g + 2) kVal pv [] kVal_safe (hv.scan (g + 1) []) hv.head
+    have := members_last (g + 2) kVal pv [] kVal_safe (hscan (g + 1) [] (by omega)) hv.head
     simpa using this
   | some n =>
     simp only [printOp, List.cons_append, List.append_assoc, List.nil_append]
@@ -177,23 +178,24 @@ theorem envText_members (g : Nat) (name : Str) (hn : ∀ c ∈ name, isSafe c = 
       ⟨'"', _, rfl, by decide⟩
     simp only [List.cons_append, List.append_assoc, List.nil_append] at h2
     rw [h2]
-    have := members_last (g + 1) kVal pv [] kVal_safe (hv.scan g []) hv.head
+    have := members_last (g + 1) kVal pv [] kVal_safe (hscan g [] (by omega)) hv.head
     simpa using this
 
 theorem envText_valid (name : Str) (hn : ∀ c ∈ name, isSafe c = true) (op : Option Nat) (pv : Str)
     (hv : ValueText pv) : valid (envText name op pv) = true := by
   unfold valid
-  have hlen : ∃ g, 2 * (envText name op pv).length + 2 = (g + 4) + 1 := ⟨2 * (envText name op pv).length - 3, by
-    have : 2 ≤ (envText name op pv).length := by simp [envText]
-    omega⟩
-  obtain ⟨g, hg⟩ := hlen
+  have hlen : ∃ g, 2 * (envText name op pv).length + 2 = (g + 4) + 1 ∧ 2 * pv.length ≤ g :=
+    ⟨2 * (envText name op pv).length - 3, by
+      have : pv.length + 2 ≤ (envText name op pv).length := by simp [envText]; omega
+      omega⟩
+  obtain ⟨g, hg, hgp⟩ := hlen
   rw [hg]
   unfold envText
   rw [skipWs_of_head '{' _ (by decide)]
   unfold scanValue
   rw [scanJ]
   simp only [List.cons_append, List.append_assoc, List.nil_append, skipWs_of_head '"' _ (by decide)]
-  have := envText_members g name hn op pv hv
+  have := envText_members g name hn op pv hv hgp
   simp only [List.cons_append, List.append_assoc, List.nil_append] at this
   split
   · rename_i heq
@@ -219,12 +221,13 @@ theorem trimWs_envText (name : Str) (op : Option Nat) (pv : Str) : trimWs (envTe
 
 /-- the members extracted from the envelope text -/
 theorem envText_rawMembers (vf n : Nat) (name : Str) (hn : ∀ c ∈ name, isSafe c = true) (op : Option Nat) (pv : Str)
-    (hv : ValueText pv) (hvf : ∃ k, vf = k + 1) :
+    (hv : ValueText pv) (hvf : ∃ k, vf = k + 1 ∧ 2 * pv.length ≤ k) :
     rawMembers vf (n + 3) ('"' :: kSum ++ '"' :: ':' :: [' '] ++ quote name ++ ',' ::
       (printOp op ++ ('"' :: kVal ++ '"' :: ':' :: pv ++ ['}']))) =
       some ((kSum, quote name) :: ((match op with | none => [] | some x => [(kOp, printNat x)]) ++ [(kVal, pv)])) := by
-  obtain ⟨k, rfl⟩ := hvf
+  obtain ⟨k, rfl, hk⟩ := hvf
   have hq : ∃ c r, quote name = c :: r ∧ isWs c = false := ⟨'"', name ++ ['"'], by simp [quote], by decide⟩
+  obtain ⟨need, hneed, hscan⟩ := hv.scan
   cases op with
   | none =>
     simp only [printOp, List.cons_append, List.append_assoc, List.nil_append]
@@ -232,7 +235,7 @@ theorem envText_rawMembers (vf n : Nat) (name : Str) (hn : ∀ c ∈ name, isSaf
       kSum_safe (by decide) (scanValue_quote k name _ hn) hq ⟨'"', _, rfl, by decide⟩
     simp only [List.cons_append, List.append_assoc, List.nil_append] at h1
     rw [h1]
-    have h3 := rawMembers_last (k + 1) (n + 1) kVal pv [] kVal_safe (hv.scan k []) hv.head
+    have h3 := rawMembers_last (k + 1) (n + 1) kVal pv [] kVal_safe (hscan k [] (by omega)) hv.head
     simp only [List.cons_append, List.append_assoc, List.nil_append] at h3
     rw [h3]
     rfl
@@ -247,7 +250,7 @@ theorem envText_rawMembers (vf n : Nat) (name : Str) (hn : ∀ c ∈ name, isSaf
       kOp_safe (by intro c hc; cases hc) (scanValue_printNat_comma k x _) (printNat_head_notws x) ⟨'"', _, rfl, by decide⟩
     simp only [List.cons_append, List.append_assoc, List.nil_append] at h2
     rw [h2]
-    have h3 := rawMembers_last (k + 1) n kVal pv [] kVal_safe (hv.scan k []) hv.head
+    have h3 := rawMembers_last (k + 1) n kVal pv [] kVal_safe (hscan k [] (by omega)) hv.head
     simp only [List.cons_append, List.append_assoc, List.nil_append] at h3
     rw [h3]
     rfl
@@ -264,7 +267,10 @@ theorem envText_objectMembers (name : Str) (hn : ∀ c ∈ name, isSafe c = true
   rw [hn']
   unfold envText
   simp only [skipWs_of_head '"' _ (by decide), List.cons_append]
-  have := envText_rawMembers (2 * (envText name op pv).length + 2) n name hn op pv hv ⟨_, rfl⟩
+  have := envText_rawMembers (2 * (envText name op pv).length + 2) n name hn op pv hv
+    ⟨2 * (envText name op pv).length + 1, rfl, by
+      have : pv.length ≤ (envText name op pv).length := by simp [envText]; omega
+      omega⟩
   unfold envText at this
   simp only [List.cons_append] at this
   exact this
@@ -493,6 +499,25 @@ theorem parseAnycastJson_print (a : Anycast) (hd : a.depth < 2 ^ 32) (hp : a.pfx
   simp only [Bool.not_true, Bool.false_eq_true, if_false, storeAnycastMembers, storeAnycastMember, foldKey_kDepth,
     foldKey_kPfx, e1, if_true, storeUint32_print _ _ hd, storeUint32_print _ _ hp, Outcome.bind]
   rfl
+
+/-- the composite record is a value text: an object needs fuel for its members, here 3 -/
+theorem valueText_printAnycastJson (a : Anycast) : ValueText (printAnycastJson a) := by
+  refine ⟨⟨'{', _, rfl, by decide⟩, ⟨3, by simp [printAnycastJson]; omega, ?_⟩⟩
+  intro f t hf
+  obtain ⟨g, rfl⟩ : ∃ g, f = g + 3 := ⟨f - 3, by omega⟩
+  unfold printAnycastJson
+  simp only [List.cons_append, List.append_assoc, List.nil_append]
+  rw [scanJ]
+  simp only [skipWs_of_head '"' _ (by decide)]
+  have h1 := members_step (g + 2) kDepth [] (printNat a.depth) ('"' :: (kPfx ++ '"' :: ':' :: (printNat a.pfx ++ '}' :: '}' :: t)))
+    kDepth_safe (by intro c hc; cases hc) (scanValue_printNat_comma (g + 1) a.depth _) (printNat_head_notws _)
+    ⟨'"', _, rfl, by decide⟩
+  have h2 := members_last (g + 1) kPfx (printNat a.pfx) ('}' :: t) kPfx_safe (scanValue_printNat_brace g a.pfx _) (printNat_head_notws _)
+  simp only [List.cons_append, List.append_assoc, List.nil_append] at h1 h2
+  rw [h2] at h1
+  split
+  · rename_i h2'; simp only [List.cons.injEq] at h2'; exact absurd h2'.1 (by decide)
+  · exact h1
 
 theorem printAnycastJson_ne_null (a : Anycast) : printAnycastJson a ≠ nullLit := by
   simp [printAnycastJson, nullLit]
